@@ -1416,13 +1416,23 @@ WHERE id IN (`, nil, itemIDs)
 	})
 }
 
+// saturatingUnixNanoAfter returns now+delay in Unix nanoseconds, saturating at
+// the largest representable instant instead of wrapping to a negative (already
+// due) timestamp when a very long retry delay leaves the int64 range.
+func saturatingUnixNanoAfter(now time.Time, delay time.Duration) int64 {
+	n := now.UnixNano()
+	if delay > 0 && int64(delay) > math.MaxInt64-n {
+		return math.MaxInt64
+	}
+	return n + int64(delay)
+}
+
 func (s *SQLiteStore) Nack(leaseID string, delay time.Duration) error {
 	if delay < 0 {
 		delay = 0
 	}
 
 	err := s.withLeaseMutation(leaseID, func(ctx context.Context, conn *sql.Conn, now time.Time, leaseID string) (int64, error) {
-		nextRunAt := now.Add(delay)
 		return execRowsAffectedTx(ctx, conn, `
 UPDATE queue_items
 SET state = ?, lease_id = NULL, lease_until = NULL, next_run_at = ?, dead_reason = NULL
@@ -1431,7 +1441,7 @@ WHERE lease_id = ?
   AND (lease_until IS NULL OR lease_until > ?);
 `,
 			string(StateQueued),
-			nextRunAt.UnixNano(),
+			saturatingUnixNanoAfter(now, delay),
 			leaseID,
 			string(StateLeased),
 			now.UnixNano(),
@@ -1450,11 +1460,10 @@ func (s *SQLiteStore) NackBatch(leaseIDs []string, delay time.Duration) (LeaseBa
 	}
 
 	res, err := s.withLeaseBatch(leaseIDs, func(ctx context.Context, conn *sql.Conn, now time.Time, itemIDs []string) error {
-		nextRunAt := now.Add(delay)
 		return s.execByItemIDsTx(ctx, conn, `
 UPDATE queue_items
 SET state = ?, lease_id = NULL, lease_until = NULL, next_run_at = ?, dead_reason = NULL
-WHERE id IN (`, []any{string(StateQueued), nextRunAt.UnixNano()}, itemIDs)
+WHERE id IN (`, []any{string(StateQueued), saturatingUnixNanoAfter(now, delay)}, itemIDs)
 	})
 	if err != nil {
 		return LeaseBatchResult{}, err
